@@ -23,6 +23,7 @@ def run(rep: core.Report):
     rep.rule("R12d", "band connection: on every path through the q-point loop on which one per-band result is reordered by band_order, every per-band result stored for that q-point (eigenvalues, eigenvectors, <e|dD|e>, group velocities) is reordered by it", 2)
     _r12d(rep)
     _r12e(rep)
+    _r12f(rep)
     # R12a -------------------------------------------------------------
     fn = core.find_def(GV, "GroupVelocity._calculate_group_velocity_at_q")
     lam, fac = sp.Symbol("lam", positive=True), sp.Symbol("factor", positive=True)
@@ -194,6 +195,66 @@ def _attr_resolution(rep, files, rule):
         raise AnalysisError(f"{rule}: only {n} attribute uses on locally constructed repository objects found")
 
 
+def _r12f(rep):
+    """Compiled derivative kernel = Cartesian q-derivative of the compiled forward kernel, term by term.
+    The forward contribution of image k to D_ij[a][b] is fc/sqrt(m_i m_j) * mean_l e^{2 pi i q.s_l} (decided under C02);
+    with q_red(m) = sum_n lattice[3 n + m] q_cart(n) its derivative along Cartesian axis n is compared with the closed
+    form of ddm[n][a][b] obtained by element-wise symbolic execution, including the selection of the images of j and
+    the NAC addends."""
+    from engine import cast, celem
+
+    DDMC = "c/derivative_dynmat.c"
+    rep.rule("R12f", "compiled derivative kernel: for every Cartesian direction n and component (a, b), real and imaginary part, the generic element equals d/dq_cart[n] of the forward-kernel term (same images, same shortest vectors, same mass factor), plus the NAC addends dnac * coefficient and ddnac * phase when NAC is on; all 54 output cells are written at [n][3i+a][3j+b]", 4)
+    tu = cast.load(DDMC, openmp=False, symbolize=("PI",))
+    i, j, n, ns = sp.symbols("i j num_patom num_satom", integer=True)
+    k, l = sp.Symbol("k", integer=True), sp.Symbol("l", integer=True)
+    fcf, multi_f, svec_f, lat, qf, massf = (sp.Function(x) for x in ("fc", "multi", "svecs", "lattice", "q", "mass"))
+    M, adrs = multi_f(k * n + i, 0), multi_f(k * n + i, 1)
+    qc = [sp.Symbol(f"qc{a}") for a in range(3)]
+    qred = [sum(lat(3 * a + m) * qc[a] for a in range(3)) for m in range(3)]
+    phi_c = 2 * sp.pi * sum(qred[m] * svec_f(adrs + l, m) for m in range(3))
+    back = {}
+    for m in range(3):
+        back[qred[m]] = qf(m)
+    sel = sp.Function("ind_eq")
+    fn_node = tu.functions.get("get_derivative_dynmat_at_q")
+    if fn_node is None:
+        raise AnalysisError("anchor vanished: get_derivative_dynmat_at_q")
+    line = tu.line(fn_node)
+    for arm, exa in (("without NAC", celem.ElemExec(tu, where=DDMC, consts={"PI": sp.pi}, null_pointers={"is_nac"})), ("with NAC", celem.ElemExec(tu, where=DDMC, consts={"PI": sp.pi}, nonnull_pointers={"is_nac"}))):
+        st = exa.function("get_derivative_dynmat_at_q", scalars={"i": i, "j": j, "num_patom": n, "num_satom": ns})
+        bad = []
+        written = {tuple(str(x) for x in pat) for pat, _, _ in st.cells.get("derivative_dynmat", [])}
+        want_written = set()
+        for d in range(3):
+            for a in range(3):
+                for b in range(3):
+                    adr = sp.expand(d * n * n * 9 + (i * 3 + a) * n * 3 + j * 3 + b)
+                    elem = fcf(sp.expand(sp.Function("p2s_map")(i) * ns * 9 + k * 9 + a * 3 + b)) / sp.sqrt(massf(i) * massf(j))
+                    if arm == "with NAC":
+                        elem = elem + sp.Function("dnac")(sp.expand(i * 9 * n + j * 9 + a * 3 + b))
+                    for c_, trig in ((0, sp.cos), (1, sp.sin)):
+                        want_written.add((str(adr), str(c_)))
+                        # chain rule with symbols for the reduced q: d/dq_cart[d] = sum_m lattice[3 d + m] d/dq_red[m]
+                        qr = [sp.Symbol(f"_qr{m}") for m in range(3)]
+                        phi_sym = 2 * sp.pi * sum(qr[m] * svec_f(adrs + l, m) for m in range(3))
+                        dterm = sum(lat(3 * d + m) * sp.diff(trig(phi_sym), qr[m]) for m in range(3)).subs({qr[m]: qf(m) for m in range(3)})
+                        phi_red = phi_sym.subs({qr[m]: qf(m) for m in range(3)})
+                        term = elem * sp.Sum(dterm, (l, 0, M - 1)) / M
+                        if arm == "with NAC":
+                            term = term + sp.Function("ddnac")(sp.expand(d * n * n * 9 + i * 9 * n + j * 9 + a * 3 + b)) * sp.Sum(trig(phi_red), (l, 0, M - 1)) / M
+                        sel_f = sel(sp.Function("p2s_map")(j) - sp.Function("s2p_map")(k))
+                        want = sp.Function("derivative_dynmat")(adr, c_) + sp.Sum(sel_f * term, (k, 0, ns - 1))
+                        got = st.cell("derivative_dynmat", adr, c_)
+                        if not celem.same(got, want):
+                            alt = want.subs(sel_f, sel(sp.Function("s2p_map")(k) - sp.Function("p2s_map")(j)))
+                            if not celem.same(got, alt):
+                                bad.append((d, a, b, "Re" if c_ == 0 else "Im", str(got)[:220]))
+        rep.instance("R12f", DDMC, "get_derivative_dynmat_at_q", f"{arm}: all 27 x 2 elements equal d/dq_cart[n] of the forward term" + (" + dnac * coefficient + ddnac * phase" if arm == "with NAC" else ""), not bad,
+                     f"{arm}: element (n, a, b, part) = {bad[0][:4] if bad else ''} is {bad[0][4] if bad else ''}: it is not the Cartesian derivative of the forward-kernel term over the same images and shortest vectors, so the analytic group velocity is not the gradient of the frequencies phonopy itself reports", line=line)
+        rep.instance("R12f", DDMC, "get_derivative_dynmat_at_q", f"{arm}: exactly the 54 cells [n][3i+a][3j+b] are written", written == want_written, f"other cells than [n][3i+a][3j+b] are written ({sorted(written ^ want_written)[:3]})", line=line)
+
+
 def _r12e(rep):
     """Frame typing of the finite-difference branch: the Cartesian unit directions are converted to reduced
     reciprocal coordinates by (L-, Cart) . (Cart) before they displace q."""
@@ -306,4 +367,9 @@ def selftest():
     b("edDe appended without band order", GR, "                edDe.append(edDe_at_q[band_order])", "                edDe.append(edDe_at_q)", "R12d", "_set_gruneisen")
     b("group velocities on a band path not reordered", "phonopy/phonon/band_structure.py", "                    gv_on_path.append(gv[i][band_order])", "                    gv_on_path.append(gv[i])", "R12d", "_solve_dm_on_path")
     n("chain rule refactored", GV, "                gv[i, :] *= self._factor**2 / f / 2", "                gv[i, :] *= 0.5 * self._factor * self._factor / f")
+    DDMC = "c/derivative_dynmat.c"
+    b("derivative kernel: coefficient sign", DDMC, "                real_coef[m] -= coef[m] * s;", "                real_coef[m] += coef[m] * s;", "R12f", "get_derivative_dynmat_at_q")
+    b("derivative kernel: lattice row and column swapped", DDMC, "                        2 * PI * lattice[m * 3 + n] * svecs[svecs_adrs + l][n];", "                        2 * PI * lattice[n * 3 + m] * svecs[svecs_adrs + l][n];", "R12f", "get_derivative_dynmat_at_q")
+    b("derivative kernel: image selection on i", DDMC, "        if (s2p_map[k] != p2s_map[j]) {\n            continue;\n        }\n\n        real_phase = 0;", "        if (s2p_map[k] != p2s_map[i]) {\n            continue;\n        }\n\n        real_phase = 0;", "R12f", "get_derivative_dynmat_at_q")
+    n("derivative kernel: factors reordered", DDMC, "                    ddm_real[n][l][m] += fc_elem * real_coef[n];", "                    ddm_real[n][l][m] += real_coef[n] * fc_elem;")
     return V
